@@ -3,7 +3,7 @@
 (A) TLC: spec/pairing/HapErrors - the reply-handling algorithm (transport type filter, step-number
     check, error check, required fields) over every (step, transport, reply) cell; invariants
     ErrorNeverSuccess / WrongStateNeverSuccess / OutcomeAllowed against the relation Allowed(step, reply).
-(B) spec -> code: every cell TLC exports (9 steps x transports x State values x Error values x
+(B) spec -> code: every cell TLC exports (10 steps - incl. the pair-resume answer PV_M2R - x transports x State values x Error values x
     subsets of the step's other fields x trailing RetryDelay) is concretised with the reference
     accessory and run on the real code: the protocol generators directly and through the IP, CoAP
     and BLE drivers that wrap them, IpPairing/BlePairing add_pairing/remove_pairing.  The observed
